@@ -48,34 +48,50 @@ func Load(dir string, overlay map[string][]byte, tags string) (*Prog, error) {
 	}
 	var notes []string
 	if ref := LoadRef(); ref != nil && os.Getenv("SA_NO_NORMALIZE") == "" {
+		cur := overlay
+		debugDump := func(ov map[string][]byte) {
+			if os.Getenv("SA_INLINE_DEBUG") != "" {
+				for f, b := range ov {
+					os.WriteFile("/tmp/sa_inline_debug_"+strings.ReplaceAll(strings.TrimPrefix(f, dir+"/"), "/", "_"), b, 0o644)
+				}
+			}
+		}
+		// (1) renames
 		if renames := inferRenames(ref, DeclTable(pkgs)); len(renames) > 0 {
-			ov2, err := renameOverlay(pkgs, renames, overlay)
+			ov2, err := renameOverlay(pkgs, renames, cur)
 			if err == nil && ov2 != nil {
 				if pkgs2, err2 := loadPkgs(dir, ov2, tags); err2 == nil {
-					pkgs = pkgs2
+					pkgs, cur = pkgs2, ov2
 					for _, rn := range renames {
 						notes = append(notes, "normalised (inferred rename, old name substituted for the analysis): "+rn.String())
 					}
 				} else {
+					debugDump(ov2)
 					notes = append(notes, "rename normalisation abandoned: "+err2.Error())
 				}
 			}
 		}
-	}
-	if ref := LoadRef(); ref != nil && os.Getenv("SA_NO_NORMALIZE") == "" && os.Getenv("SA_NO_INLINE") == "" {
-		cur := overlay
-		for pass := 1; pass <= 4; pass++ {
+		// (2) method <-> function
+		if convs := inferConversions(ref, DeclTable(pkgs)); len(convs) > 0 {
+			if ov2, n2 := convertOverlay(pkgs, convs, cur); ov2 != nil {
+				if pkgs2, err2 := loadPkgs(dir, ov2, tags); err2 == nil {
+					pkgs, cur = pkgs2, ov2
+					notes = append(notes, n2...)
+				} else {
+					debugDump(ov2)
+					notes = append(notes, "method/function normalisation abandoned: "+err2.Error())
+				}
+			}
+		}
+		// (3) functions the pinned tree does not have
+		for pass := 1; pass <= 4 && os.Getenv("SA_NO_INLINE") == ""; pass++ {
 			ov2, n2, changed := inlinePass(ref, pkgs, cur, pass)
 			if !changed {
 				break
 			}
 			pkgs2, err2 := loadPkgs(dir, ov2, tags)
 			if err2 != nil {
-				if os.Getenv("SA_INLINE_DEBUG") != "" {
-					for f, b := range ov2 {
-						os.WriteFile("/tmp/sa_inline_debug_"+strings.ReplaceAll(strings.TrimPrefix(f, dir+"/"), "/", "_"), b, 0o644)
-					}
-				}
+				debugDump(ov2)
 				notes = append(notes, "inlining of functions unknown to the pinned tree abandoned in pass "+fmt.Sprint(pass)+": "+err2.Error())
 				break
 			}
